@@ -719,14 +719,17 @@ def run(ctx):
                            coq=rng.random() < part)
     t1 = time.time()
 
-    # 2. the whole pool, exhaustively to depth 2 (probed on a sample)
+    # 2. the whole pool, exhaustively to depth 2 against the reference
+    # registry (quick: a sample is probed / evaluated in Coq)
     full = pool_full()
     ctx.extra["pool_size"] = len(full)
     for length in (1, 2):
         for seq in itertools.product(full, repeat=length):
             ops = tuple(with_form(rng, o) for o in seq)
             sample = rng.random() < (0.1 if ctx.quick else 1.0)
-            runner.run(ops, "full", False, None, True, do_probe=sample)
+            runner.run(ops, "full", False, None, True, do_probe=sample,
+                       coq=length == 1 or not ctx.quick
+                       or rng.random() < 0.5)
     t2 = time.time()
 
     # 3. random long sequences over the whole pool, checked after every call
@@ -776,7 +779,9 @@ def run(ctx):
         "handlers, exception handlers, mixed) exhaustively to depth 3 "
         "(thorough: 5, mixed 4); the whole pool (%d calls: 4 uris, 2 "
         "patterns, 2 handlers, 3 masks, 2 codes, 2 exception classes, 2 "
-        "hooks, 3 filters) exhaustively to depth 2 and sampled at depth 3; "
+        "hooks, 3 filters) exhaustively to depth 2 and sampled at depth 3 "
+        "(quick: half of the depth-2 and thorough: 15%% of the depth-5 "
+        "sequences go through Coq, all meet the reference registry); "
         "random sequences of 10-60 calls; hostile sequences (empty/negative/"
         "unknown-bit masks, combined methods in pop, unknown keys, odd filter "
         "names); method/decorator/deprecated/default-argument forms chosen at "
